@@ -1,5 +1,6 @@
 """C02 - aliveness follows the create / delete / maintain timeline exactly."""
 from ..alloc import ALLOC, AllocModel
+from . import _alloc_rules
 from ..core import base_ty, rv_const_bool, strip_ref
 from ..summaries import ENTITY, AliveClass, entity_of_index
 
@@ -13,7 +14,8 @@ EXPLANATION = (
     "of the loop over the batch. R3 (a death clears the pending-kill flag): every death site is accompanied by killed.remove(same index) on every "
     "path through it, or by the bulk idiom (death sites iterate `killed`, killed.clear() post-dominates) - upstream regression #533 as a rule. "
     "R4 (merge order and result): the loop applying pending raises is finished (raised.clear() passed) before the iterator over `killed` is "
-    "created; every handle pushed to the result is built from the iterated index; merge returns that vector. R5 (sibling agreement on 'current "
+    "created; every item of the pending-creation loop becomes alive (or is reported dead), every item of the pending-deletion loop kills its "
+    "slot, and every slot death in merge is reported in the returned vector, on every path of its iteration. R5 (sibling agreement on 'current "
     "generation of index i'): is_alive and entity() use the same set of generation-computing callees; the three join get() impls of &EntitiesRes "
     "and the tail of allocate_atomic do too, and the join impls agree on Mask. R6 (builders): Drop for each builder calls EntitiesRes::delete(self.entity) "
     "on every path of the built == false edge and never on the other; build() stores true into `built` before returning self.entity. R7 "
@@ -48,6 +50,8 @@ def run(ctx):
         r2(ctx, facts, model)
         r3(ctx, facts, model)
         r4(ctx, facts, model)
+        n = _alloc_rules.merge_accounting(ctx, facts, model, {'revive': 'C02-R4', 'kill': 'C02-R4', 'report': 'C02-R4'})
+        ctx.floor('C02-R4', 'pending-set loops in merge', n, 2)
         r5(ctx, facts, model)
         r6(ctx, facts)
         r7(ctx, facts)
